@@ -150,6 +150,8 @@ pub enum ReadPlan {
     EagerAll,
     /// wait on the gate first, then `read_all()`
     LazyAll,
+    /// `take_payload()` and read it to the end in a task of its own (the reader outlives the handler)
+    Detached,
 }
 
 #[derive(Clone, Copy, Debug, PartialEq, Eq, Hash, serde::Serialize, serde::Deserialize)]
@@ -204,6 +206,8 @@ pub struct App {
     pub hold_stop: Cell<bool>,
     /// fail the control service on the first back-pressure notification
     pub fail_on_backpressure: Cell<bool>,
+    /// called synchronously when a publish handler is entered (before its first await)
+    pub on_pub_enter: RefCell<Option<Rc<dyn Fn(u32)>>>,
     pub pub_seq: Cell<u32>,
     pub ctl_seq: Cell<u32>,
     pub active_pub: Cell<u32>,
@@ -233,6 +237,7 @@ impl App {
             stop_answer: Cell::new(StopAnswer::None),
             hold_stop: Cell::new(false),
             fail_on_backpressure: Cell::new(false),
+            on_pub_enter: RefCell::new(None),
             pub_seq: Cell::new(0),
             ctl_seq: Cell::new(0),
             active_pub: Cell::new(0),
@@ -272,6 +277,10 @@ impl App {
     pub fn hold(&self, kind: u8, seq: u32) {
         self.gates.borrow_mut().entry((kind, seq)).or_insert(Gate::Closed(None));
     }
+    /// close a gate again (after `open_all`)
+    pub fn rehold(&self, kind: u8, seq: u32) {
+        self.gates.borrow_mut().insert((kind, seq), Gate::Closed(None));
+    }
     pub fn open_all(&self) {
         self.default_open.set(true);
         let mut g = self.gates.borrow_mut();
@@ -301,6 +310,12 @@ impl App {
                 }
             }
         })
+    }
+    pub fn entered(&self, seq: u32) {
+        let cb = self.on_pub_enter.borrow().clone();
+        if let Some(cb) = cb {
+            cb(seq);
+        }
     }
     pub fn enter_pub(&self, size: u64) {
         let n = self.active_pub.get() + 1;
@@ -653,7 +668,9 @@ where
 {
     let mut start = 0usize;
     while start < work.len() {
-        let end = (start + 400).min(work.len());
+        // one runtime per batch (each leaks a little): long lists use larger batches
+        let batch_len = std::env::var("VERIF_BATCH").ok().and_then(|v| v.parse().ok()).unwrap_or(if work.len() > 40_000 { 4_000 } else { 400 });
+        let end = (start + batch_len).min(work.len());
         let batch: Vec<T> = work[start..end].to_vec();
         let (infos, fail) = run_batch(id, batch, check.clone());
         for (i, info) in infos.iter().enumerate() {
